@@ -370,3 +370,47 @@ func GenHistory(t *rapid.T, withTx bool, maxOps int) Case {
 	}
 	return c
 }
+
+// GenRequests draws a case for the system engine: whole requests (one or two
+// fields, nil = unset) against registry 0 (the generated view) and, in a
+// minority of cases, writes to a second registry of the same account.
+func GenRequests(t *rapid.T, maxOps int) Case {
+	c := GenBase(t)
+	frs := Flatten(c.Rules)
+	twoRegs := chance(t, "tworegs", 15)
+	n := rapid.IntRange(3, maxOps).Draw(t, "nops")
+	for i := 0; i < n; i++ {
+		op := Op{Kind: "set", Fields: map[string]interface{}{}}
+		k := rapid.IntRange(0, 99).Draw(t, "kind")
+		switch {
+		case twoRegs && k >= 85:
+			op.Reg = 1
+			op.Fields["p"] = genScalar(t, "")
+		case k < 25:
+			op.Kind = "get"
+			nf := 1
+			if chance(t, "getfields", 30) {
+				nf = 2
+			}
+			for j := 0; j < nf; j++ {
+				req, _, _ := genRequest(t, frs)
+				op.Fields[req] = true
+			}
+		default:
+			nf := 1
+			if chance(t, "setfields", 25) {
+				nf = 2
+			}
+			for j := 0; j < nf; j++ {
+				req, idx, suffix := genRequest(t, frs)
+				if chance(t, "unset", 15) {
+					op.Fields[req] = nil
+				} else {
+					op.Fields[req] = genSetValue(t, &c, idx, suffix)
+				}
+			}
+		}
+		c.Ops = append(c.Ops, op)
+	}
+	return c
+}
